@@ -167,6 +167,17 @@ func validateResponseHeader(headerName string, headerRef *openapi3.HeaderRef, in
 	var sm *openapi3.SerializationMethod
 	dec := &headerParamDecoder{header: input.Header}
 
+	if headerRef.Value.Schema == nil {
+		// The header is defined by "content" rather than "schema": its value is not decoded here.
+		if headerRef.Value.Required && len(input.Header.Values(headerName)) == 0 {
+			return &ResponseError{
+				Input:  input,
+				Reason: fmt.Sprintf("response header %q missing", headerName),
+			}
+		}
+		return nil
+	}
+
 	if sm, err = headerRef.Value.SerializationMethod(); err != nil {
 		return &ResponseError{
 			Input:  input,
